@@ -9,7 +9,7 @@ use std::future::poll_fn;
 use std::rc::Rc;
 use std::task::Poll;
 
-pub const WATCHDOG_MSG: &str = "HARNESS-WATCHDOG: I/O poll budget of the transport exhausted";
+pub const WATCHDOG_MSG: &str = "HARNESS-WATCHDOG: count-based budget (transport polls / clock reads) exhausted";
 
 #[derive(Clone, Debug, PartialEq, Eq)]
 pub enum IoEvent {
